@@ -276,7 +276,21 @@ func checkHistory(c Case) error {
 			return harness.Violatef("c10/decode-error", "violation-free history with all paths ended gives a stream the decoder rejects: %v (% x)", err, out)
 		}
 		want := append([]ops.Op{ops.OpReset(a.vb, a.pal)}, a.delivered...)
-		if d := ops.DiffOps(rec.Ops, want); d != "" {
+		// a rotation is an angle in turns: the history and the stream name the same angle when
+		// they differ by whole turns (the values generated are eighths, exact in every form)
+		turns := func(list []ops.Op) []ops.Op {
+			out := append([]ops.Op{}, list...)
+			for i, o := range out {
+				if (o.K == ops.AbsArcTo || o.K == ops.RelArcTo) && len(o.F) > 2 {
+					o.F = append([]ops.F32{}, o.F...)
+					v := float64(o.F[2])
+					o.F[2] = ops.F32(float32(v - math.Floor(v)))
+					out[i] = o
+				}
+			}
+			return out
+		}
+		if d := ops.DiffOps(turns(rec.Ops), turns(want)); d != "" {
 			return harness.Violatef("c10/decodes-to-history", "%s (% x)", d, out)
 		}
 	}
@@ -533,7 +547,7 @@ func genCall(t *rapid.T, drawing bool) Call {
 	op := func(o ops.Op) Call { return Call{What: "op", Op: &o} }
 	drawCall := func(k ops.Kind) Call {
 		if k == ops.AbsArcTo || k == ops.RelArcTo {
-			return op(ops.OpArc(k, exact(t, "rx"), exact(t, "ry"), float32(rapid.IntRange(0, 7).Draw(t, "rot"))/8, rapid.Bool().Draw(t, "la"), rapid.Bool().Draw(t, "sw"), exact(t, "x"), exact(t, "y")))
+			return op(ops.OpArc(k, exact(t, "rx"), exact(t, "ry"), float32(rapid.IntRange(0, 7).Draw(t, "rot"))/8+float32(rapid.SampledFrom([]int{0, 0, 0, 0, -1, 1, -3, 2}).Draw(t, "rotturns")), rapid.Bool().Draw(t, "la"), rapid.Bool().Draw(t, "sw"), exact(t, "x"), exact(t, "y")))
 		}
 		args := make([]float32, k.NArgs())
 		for i := range args {
